@@ -3,7 +3,7 @@ import ast
 
 from ..core import AnalysisError, dotted, call_name, src, walk_local, const_value
 from ..flow import edge_facts, linear, Lin, leaves
-from ..rules import flow_of, calls_in, bind_args, canon, facts_at, cmp_norm, alts_deep, specialise, path_feasible, gexpand
+from ..rules import flow_of, calls_in, bind_args, canon, facts_at, cmp_norm, alts_deep, specialise, path_feasible, gexpand, flow_expand_atom
 from ..flow import edge_facts
 from ..nullflow import Spec, analyse, _use_kind
 from ..shapes import Shapes
@@ -459,7 +459,17 @@ def _default_only_on_none(ck, f, fl, p, defaults, side):
             v = n.stmt.value
             on_none = any((c := cmp_norm(a, t)) and c[1] == "is" and dotted(c[0]) == p and isinstance(c[2], ast.Constant) and c[2].value is None
                           for a, t in facts_at(fl, n))
-            ck.require(on_none and canon(v) in defaults, "C06.R6", f, n.stmt, ok=f"{p} defaults to the network's value only when it is None",
+            good = on_none and canon(v) in defaults
+            if not good and not on_none:
+                # the same thing computed elsewhere (a helper spliced in, a temporary): the stored value, as a function of the
+                # argument, must be the default for None and the argument itself otherwise - an explicit 0 included
+                try:
+                    gx = gexpand(fl, v, n)
+                    res = [canon(specialise(gx, {p: k})) for k in (None, 0, 7.5)]
+                    good = res[0] in defaults and res[1] == "0" and res[2] == "7.5"
+                except AnalysisError:
+                    good = False
+            ck.require(good, "C06.R6", f, n.stmt, ok=f"{p} defaults to the network's value only when it is None",
                        bad=f"`{src(n.stmt, 70)}`: the tolerance argument is replaced other than on `{p} is None` (an explicit 0 must be honoured)",
                        sink=f"{side}:default:{p}")
 
@@ -470,7 +480,8 @@ def rule_interface(ck, g):
     fl = flow_of(f)
     cfg = fl.cfg
     lc, lin_p, vt, rt = f.params[1:5]
-    calls = [(n, c) for n, c in calls_in(fl, "is_feasible") if canon(c.func).startswith("self._simulator.network")]
+    calls = [(n, c) for n, c in calls_in(fl, "is_feasible")
+             if isinstance(c.func, ast.Attribute) and canon(flow_expand_atom(fl, c.func.value, n)) == "self._simulator.network"]
     ck.require(len(calls) == 1, "C06.R6", f, calls[0][1] if calls else "network.is_feasible(...)", bad=f"{len(calls)} delegations to network.is_feasible", sink="iface:delegate")
     for n, c in calls:
         b = bind_args(c, g, method=True)
